@@ -80,7 +80,8 @@ prop("C05", [_lazy("registry", "rule_reg12"), _lazy("registry", "rule_reg3"), _l
      "models are unchanged'; union-of-fields of a merged model (delegated to merge_field_sets, see C01)")
 
 prop("C09", [_lazy("strtypes", "rule_det1"), _lazy("strtypes", "rule_det2"), _lazy("strtypes", "rule_det3"),
-             _lazy("strtypes", "rule_det4"), _lazy("strtypes", "rule_det5"), _lazy("infer", "rule_val1")],
+             _lazy("strtypes", "rule_det4"), _lazy("strtypes", "rule_det5"), _lazy("strtypes", "rule_res1"),
+             _lazy("infer", "rule_val1")],
      "Static decision of the protocol clauses of C09: a registry class is returned as the detected type only where "
      "a completed call of that class's own parser on the unmodified input dominates the return and the rejecting "
      "handler cannot fall through (DET-1); the registry iterates its registration list, which is only appended to "
@@ -218,7 +219,8 @@ prop("C12", [_lazy("layout", "rule_lay1"), _lazy("layout", "rule_lay2"), _lazy("
      "graphs (run-time graph shape)")
 
 prop("C01", [_lazy("infer", "rule_opt"), _lazy("infer", "rule_opt2"), _lazy("infer", "rule_opt3"), _lazy("infer", "rule_drop1"),
-             _lazy("emit", "rule_dup1"), _lazy("emit", "rule_sib1"), _lazy("infer", "rule_eq1"), _lazy("infer", "rule_samples1")],
+             _lazy("emit", "rule_dup1"), _lazy("emit", "rule_sib1"), _lazy("infer", "rule_eq1"), _lazy("infer", "rule_samples1"),
+             _lazy("strtypes", "rule_res1")],
      "Static decision of the optionality / completeness clauses of C01: on every feasible path of the per-field merge "
      "loop (path enumeration with the equality axioms of EQ-1/NF-3) the value left in the merged set is optional "
      "whenever the stored or the incoming side was optional or the field is new in a later set, and the stored type "
